@@ -7,6 +7,8 @@
   script argument list (variadic tail flattened) and how results / exceptions map back.
   Core Lean only.
 -/
+import GojaModel.C13.Bridge
+
 namespace GojaModel.C13
 
 inductive Slot where
@@ -48,6 +50,29 @@ def gatewayIn (nargs : Nat) (variadic : Bool) (l : Nat) : GIn :=
 def specSlot (nargs : Nat) (variadic : Bool) (l i : Nat) : Slot :=
   if i < l then (if nargs ≤ i + 1 ∧ variadic = true then .arg i (nargs - 1) true else .arg i i false)
   else .zero i
+
+/-! conversion of the script arguments (toReflectValue into the parameter type, runtime.go:2072): primitives into
+    integer parameters -/
+
+inductive JArg where
+  | num (v : JsNum) | bool (b : Bool) | undef | null
+deriving DecidableEq, Repr
+
+/-- toReflectValue(a, v) for an integer parameter of kind k: undefined / null have no export type → reflect.Zero;
+    a boolean goes through ToNumber; a number through toInt8 … toUint64. -/
+def convArgInt (k : IntKind) : JArg → Int
+  | .num v => (exportToInt k v).getD 0
+  | .bool b => if b then 1 else 0
+  | .undef => 0
+  | .null => 0
+
+/-- what the Go func receives: position i of `in`, converted for its parameter kind -/
+def gatewayCall (kinds : List IntKind) (variadic : Bool) (args : List JArg) : List Int :=
+  let g := gatewayIn kinds.length variadic args.length
+  (List.range g.len).map (fun i => match g.slot i with
+    | .arg j p _ => convArgInt (kinds.getD p .int) (args.getD j .undef)
+    | .zero _ => 0
+    | .unset => 0)
 
 /-! results of a Go call (runtime.go:2052-2083) -/
 
